@@ -207,6 +207,31 @@ fn typed_table() -> Vec<(&'static str, fn(&mut Ctx, &[u8]))> {
         rt!("BTreeMap<String,F64>", BTreeMap<String, F64>),
         rt!("ByteBuf", serde_bytes::ByteBuf),
         rt!("serde_json::Value", serde_json::Value),
+        // structs, all enum shapes and representations, wrapper kinds, key kinds
+        rt!("Option<Option<String>>", Option<Option<String>>),
+        rt!("Option<()>", Option<()>),
+        rt!("Unit", Unit),
+        rt!("Newtype", Newtype),
+        rt!("Pair", Pair),
+        rt!("Fieldless", Fieldless),
+        rt!("Shapes", Shapes),
+        rt!("Payloads", Payloads),
+        rt!("Vec<Payloads>", Vec<Payloads>),
+        rt!("Wrappers", Wrappers),
+        rt!("Plain", Plain),
+        rt!("Defaults", Defaults),
+        rt!("Strict", Strict),
+        rt!("Borrowing", Borrowing),
+        rt!("Nested", Nested),
+        rt!("Untagged", Untagged),
+        rt!("Flat", Flat),
+        rt!("Internally", Internally),
+        rt!("Adjacent", Adjacent),
+        rt!("BTreeMap<bool,u8>", BTreeMap<bool, u8>),
+        rt!("BTreeMap<Fieldless,u8>", BTreeMap<Fieldless, u8>),
+        rt!("BTreeMap<Option<String>,u8>", BTreeMap<Option<String>, u8>),
+        rt!("BTreeMap<char,u8>", BTreeMap<char, u8>),
+        rt!("Box<[i8]>", Box<[i8]>),
     ]
 }
 
@@ -378,6 +403,253 @@ fn check_laws(ctx: &mut Ctx, ta: &[u8], tb: &[u8], seed: u64) {
     let _ = cmp_doc(&a, &da.root, ta, NumMode::Default);
 }
 
+
+// ---- (4) values built by conversions / macros vs parsed values; comparison with primitives
+
+fn parsed_of<T: serde::Serialize>(x: &T) -> Option<Value> {
+    sonic_rs::from_str(&sonic_rs::to_string(x).ok()?).ok()
+}
+
+fn check_built(ctx: &mut Ctx, seed: u64) {
+    use faststr::FastStr;
+    let mut r = Rng::new(seed);
+    macro_rules! forms {
+        ($name:expr, $v:expr, $q:expr, $want:expr) => {{
+            let v: &Value = $v;
+            let mut vm = v.clone();
+            let got = [*v == $q, $q == *v, v == $q, (&mut vm) == $q];
+            ctx.ops(1);
+            if got.iter().any(|g| *g != $want) {
+                ctx.fail(&format!("eq-primitive-forms:{}", $name), format!("{} compared with {:?}: forms [V==p, p==V, &V==p, &mut V==p] = {:?}, expected {}", crate::core::truncate(&sonic_rs::to_string(v).unwrap_or_default(), 100), $q, got, $want));
+            }
+        }};
+    }
+    macro_rules! ints {
+        ($($t:ident)*) => {$({
+            let p: $t = match r.below(6) { 0 => $t::MAX, 1 => $t::MIN, 2 => 0, 3 => ($t::MAX / 2).wrapping_add(1), _ => (r.next() >> r.below(64)) as $t };
+            let q: $t = match r.below(4) { 0 => p, 1 => p.wrapping_add(1), 2 => p.wrapping_neg(), _ => r.next() as $t };
+            let v = Value::from(p);
+            ctx.class("built:integer");
+            match parsed_of(&p) {
+                Some(w) => {
+                    if !(v == w && w == v) {
+                        ctx.fail(&format!("eq-built-vs-parsed:{}", stringify!($t)), format!("Value::from({}{}) is not equal to the value parsed from its text", p, stringify!($t)));
+                    }
+                    forms!(stringify!($t), &w, q, p == q);
+                }
+                None => ctx.fail("built:text-route", format!("{}", p)),
+            }
+            forms!(stringify!($t), &v, q, p == q);
+            // the same number through the widest type of the other signedness
+            let as_i = p as i128;
+            let qu = r.next() >> r.below(64);
+            forms!(concat!(stringify!($t), "-vs-u64"), &v, qu, as_i == qu as i128);
+            let qi = (r.next() as i64) >> r.below(64);
+            forms!(concat!(stringify!($t), "-vs-i64"), &v, qi, as_i == qi as i128);
+            if as_i >= 0 && as_i <= u64::MAX as i128 { forms!(concat!(stringify!($t), "-as-u64"), &v, as_i as u64, true); }
+            if as_i >= i64::MIN as i128 && as_i <= i64::MAX as i128 { forms!(concat!(stringify!($t), "-as-i64"), &v, as_i as i64, true); }
+            // Option / unit conversions
+            let o = Value::from(Some(p));
+            if o != v { ctx.fail("eq-built:option", format!("Value::from(Some({})) != Value::from({})", p, p)); }
+        })*};
+    }
+    ints!(u8 u16 u32 u64 usize i8 i16 i32 i64 isize);
+    if !(Value::from(()).is_null() && Value::from(None::<i32>).is_null() && Value::from(()) == Value::default() && parsed_of(&()).map(|w| w == Value::from(())).unwrap_or(false)) {
+        ctx.fail("eq-built:unit", "Value::from(()) / None / default / parsed null disagree".into());
+    }
+    // bool
+    {
+        let p = r.chance(1, 2);
+        let q = r.chance(1, 2);
+        let v = Value::from(p);
+        forms!("bool", &v, q, p == q);
+        if let Some(w) = parsed_of(&p) {
+            forms!("bool", &w, q, p == q);
+            if v != w { ctx.fail("eq-built-vs-parsed:bool", format!("{}", p)); }
+        }
+    }
+    // floats (finite: TryFrom)
+    {
+        let p = loop { let f = crate::gen::dynval::rand_f64(&mut r); if f.is_finite() { break f } };
+        let q = match r.below(3) { 0 => p, 1 => f64::from_bits(p.to_bits() ^ 1), _ => -p };
+        ctx.class("built:float");
+        match Value::try_from(p) {
+            Ok(v) => {
+                forms!("f64", &v, q, p == q);
+                if let Some(w) = parsed_of(&p) {
+                    forms!("f64", &w, q, p == q);
+                    // a float that prints as an integer literal cannot occur: to_string keeps ".0" / exponent
+                    if !(v == w && w == v) { ctx.fail("eq-built-vs-parsed:f64", format!("Value::try_from({:e}) vs parsed {:?}", p, sonic_rs::to_string(&p))); }
+                }
+            }
+            Err(e) => ctx.fail("built:try_from-f64-finite", format!("{:e}: {}", p, e)),
+        }
+        for bad in [f64::NAN, f64::INFINITY, f64::NEG_INFINITY] {
+            if Value::try_from(bad).is_ok() { ctx.fail("built:try_from-f64-nonfinite-accepted", format!("{}", bad)); }
+        }
+        let pf = loop { let f = crate::gen::dynval::rand_f32(&mut r); if f.is_finite() { break f } };
+        let qf = match r.below(3) { 0 => pf, 1 => f32::from_bits(pf.to_bits() ^ 1), _ => -pf };
+        match Value::try_from(pf) {
+            Ok(v) => forms!("f32", &v, qf, pf == qf),
+            Err(e) => ctx.fail("built:try_from-f32-finite", format!("{:e}: {}", pf, e)),
+        }
+        if Value::try_from(f32::NAN).is_ok() || Value::try_from(f32::INFINITY).is_ok() { ctx.fail("built:try_from-f32-nonfinite-accepted", String::new()); }
+    }
+    // strings: every conversion gives the same value as parsing the serialised text
+    {
+        let p: String = crate::gen::dynval::rand_text(&mut r);
+        let q: String = match r.below(3) { 0 => p.clone(), 1 => format!("{}x", p), _ => crate::gen::dynval::rand_text(&mut r) };
+        ctx.class("built:string");
+        let fs = FastStr::new(&p);
+        let built: Vec<(&str, Value)> = vec![
+            ("&str", Value::from(p.as_str())),
+            ("&String", Value::from(&p)),
+            ("FastStr", Value::from(fs.clone())),
+            ("&FastStr", Value::from(&fs)),
+            ("Cow::Borrowed", Value::from(Cow::Borrowed(p.as_str()))),
+            ("Cow::Owned", Value::from(Cow::<str>::Owned(p.clone()))),
+            ("FromStr", p.parse::<Value>().unwrap_or_default()),
+            ("copy_str", Value::copy_str(&p)),
+            ("Some(&str)", Value::from(Some(p.as_str()))),
+            ("json!", sonic_rs::json!(p.as_str())),
+        ];
+        let w = parsed_of(&p);
+        for (name, v) in &built {
+            ctx.ops(1);
+            if v.as_str() != Some(p.as_str()) {
+                ctx.fail(&format!("built:string-content:{}", name), format!("{:?} -> {:?}", p, v.as_str()));
+            }
+            if let Some(w) = &w {
+                if !(v == w && w == v) { ctx.fail(&format!("eq-built-vs-parsed:str:{}", name), format!("{:?}", p)); }
+            }
+            let want = p == q;
+            let mut vm = v.clone();
+            let qs: &str = q.as_str();
+            let qf = FastStr::new(&q);
+            let got = [*v == q, q == *v, v == q, (&mut vm) == q, *v == qs, qs == *v, *v == *qs, *qs == *v, v == *qs, *v == qf, qf == *v, v == qf];
+            if got.iter().any(|g| *g != want) {
+                ctx.fail(&format!("eq-primitive-forms:str:{}", name), format!("{:?} vs {:?}: {:?} expected {}", p, q, got, want));
+            }
+        }
+        if let Some(c) = p.chars().next() {
+            let v = Value::from(c);
+            if v.as_str() != Some(c.to_string().as_str()) || parsed_of(&c).map(|w| w != v).unwrap_or(true) {
+                ctx.fail("built:char", format!("{:?}", c));
+            }
+        }
+    }
+    // arrays: Vec / slice / array conversions, FromIterator, Extend, macros, slice comparisons
+    {
+        let p: Vec<i64> = (0..r.range(0, 6)).map(|_| (r.next() as i64) >> r.below(64)).collect();
+        let mut q = p.clone();
+        match r.below(4) {
+            0 => {}
+            1 => q.push(7),
+            2 => { if let Some(x) = q.first_mut() { *x = x.wrapping_add(1); } else { q.push(0); } }
+            _ => { q.pop(); if q.len() == p.len() { q.push(1); } }
+        }
+        ctx.class("built:array");
+        let mut ext = sonic_rs::Array::new();
+        ext.extend(p.iter());
+        let arr3: [i64; 3] = [r.next() as i64, 0, -1];
+        let built: Vec<(&str, Value)> = vec![
+            ("Vec", Value::from(p.clone())),
+            ("&[T]", Value::from(p.as_slice())),
+            ("FromIterator", p.iter().copied().collect::<Value>()),
+            ("Array::from(Vec)", sonic_rs::Array::from(p.clone()).into()),
+            ("Array::from(&[T])", sonic_rs::Array::from(p.as_slice()).into()),
+            ("Array::from_iter", p.iter().copied().collect::<sonic_rs::Array>().into_value()),
+            ("Extend<&T>", ext.into_value()),
+            ("Vec<Value>", Value::from(p.iter().map(|x| Value::from(*x)).collect::<Vec<Value>>())),
+            ("Vec<Option>", Value::from(p.iter().map(|x| Some(*x)).collect::<Vec<_>>())),
+        ];
+        let w = parsed_of(&p);
+        for (name, v) in &built {
+            ctx.ops(1);
+            if let Some(w) = &w {
+                if !(v == w && w == v) { ctx.fail(&format!("eq-built-vs-parsed:array:{}", name), format!("{:?} -> {}", p, sonic_rs::to_string(v).unwrap_or_default())); }
+            }
+            let want = p == q;
+            let qs: &[i64] = q.as_slice();
+            let mut qm = q.clone();
+            let got = [*v == q, q == *v, *v == qs, qs == *v, *v == *qs, *qs == *v, *v == qm.as_mut_slice()];
+            if got.iter().any(|g| *g != want) {
+                ctx.fail(&format!("eq-slice-forms:{}", name), format!("{:?} vs {:?}: {:?} expected {}", p, q, got, want));
+            }
+            if let Some(a) = v.as_array() {
+                let got = [*a == q, q == *a, *a == qs, qs == *a, *a == *qs, *a == *v, *v == *a, v == *a, a == *v];
+                let wants = [want, want, want, want, want, true, true, true, true];
+                if got != wants {
+                    ctx.fail(&format!("eq-array-wrapper-forms:{}", name), format!("{:?} vs {:?}: {:?} expected {:?}", p, q, got, wants));
+                }
+            } else {
+                ctx.fail(&format!("built:array-kind:{}", name), format!("{:?}", p));
+            }
+        }
+        let va = Value::from(&arr3);
+        let aa: Value = sonic_rs::Array::from(&arr3).into();
+        let ma = sonic_rs::json!([arr3[0], arr3[1], arr3[2]]);
+        let mb: Value = sonic_rs::array![arr3[0], arr3[1], arr3[2]].into();
+        let wa = parsed_of(&arr3).unwrap_or_default();
+        let other = [arr3[0], 1, -1];
+        if !(va == wa && aa == wa && ma == wa && mb == wa && va == arr3 && arr3 == va && va == &arr3 && &arr3 == va && !(va == other) && !(other == va) && !(va == [arr3[0], 0]) ) {
+            ctx.fail("eq-built:fixed-array", format!("{:?}", arr3));
+        }
+    }
+    // objects: FromIterator of pairs, Extend, macros, wrapper comparisons
+    {
+        let n = r.range(0, 5);
+        let mut keys: Vec<String> = vec![];
+        while keys.len() < n as usize {
+            let k = crate::gen::dynval::rand_text(&mut r);
+            if !keys.contains(&k) { keys.push(k); }
+        }
+        let vals: Vec<i32> = keys.iter().map(|_| r.next() as i32).collect();
+        let map: BTreeMap<String, i32> = keys.iter().cloned().zip(vals.iter().copied()).collect();
+        ctx.class("built:object");
+        let mut ext = sonic_rs::Object::new();
+        ext.extend(map.iter());
+        let mut ins = sonic_rs::Object::new();
+        for (k, x) in keys.iter().zip(&vals).rev() { ins.insert(k, *x); }
+        let built: Vec<(&str, Value)> = vec![
+            ("Value::from_iter", map.iter().collect::<Value>()),
+            ("Object::from_iter", map.iter().collect::<sonic_rs::Object>().into_value()),
+            ("Extend", ext.into_value()),
+            ("insert-reversed", ins.into_value()),
+            ("to_value", sonic_rs::to_value(&map).unwrap_or_default()),
+        ];
+        let w = parsed_of(&map);
+        let mut other = map.clone();
+        match r.below(3) { 0 => { other.insert("\u{1}extra".into(), 0); } 1 => { if let Some(x) = other.values_mut().next() { *x = x.wrapping_add(1); } else { other.insert("k".into(), 1); } } _ => { if other.pop_first().is_none() { other.insert("k".into(), 1); } } }
+        let wo = parsed_of(&other).unwrap_or_default();
+        for (name, v) in &built {
+            ctx.ops(1);
+            if let Some(w) = &w {
+                if !(v == w && w == v) { ctx.fail(&format!("eq-built-vs-parsed:object:{}", name), format!("{:?} -> {}", map, sonic_rs::to_string(v).unwrap_or_default())); }
+                if v == &wo || &wo == v { ctx.fail(&format!("eq-built-object-claims-equal:{}", name), format!("{:?} vs {:?}", map, other)); }
+                match (v.as_object(), w.as_object(), wo.as_object()) {
+                    (Some(o), Some(ow), Some(oo)) => {
+                        let got = [o == ow, ow == o, *o == *v, *v == *o, v == *o, o == *v, *o == *w, *w == *o, o == oo, *o == wo, wo == *o];
+                        let wants = [true, true, true, true, true, true, true, true, false, false, false];
+                        if got != wants { ctx.fail(&format!("eq-object-wrapper-forms:{}", name), format!("{:?}: {:?} expected {:?}", map, got, wants)); }
+                    }
+                    _ => ctx.fail(&format!("built:object-kind:{}", name), format!("{:?}", map)),
+                }
+            }
+        }
+        if map.len() >= 2 {
+            let (k0, k1) = (&keys[0], &keys[1]);
+            let j = sonic_rs::json!({k0.as_str(): vals[0], k1.as_str(): [vals[1], null, true], "\u{2}n": {"x": 1.5}});
+            let o: Value = sonic_rs::object! {k0.as_str(): vals[0], k1.as_str(): sonic_rs::array![vals[1], (), true], "\u{2}n": sonic_rs::object!{"x": 1.5}}.into();
+            let text = format!("{{{}:{},{}:[{},null,true],\"\\u0002n\":{{\"x\":1.5}}}}", sonic_rs::to_string(k0).unwrap(), vals[0], sonic_rs::to_string(k1).unwrap(), vals[1]);
+            match sonic_rs::from_str::<Value>(&text) {
+                Ok(w) => if !(j == w && w == j && o == w && w == o && j == o) { ctx.fail("eq-built:macros", format!("json!/object! vs parsed {:?}", text)); },
+                Err(e) => ctx.fail("built:macro-text", format!("{}: {}", text, e)),
+            }
+        }
+    }
+}
+
 impl Check for C19 {
     fn id(&self) -> &'static str {
         "C19"
@@ -429,6 +701,10 @@ impl Check for C19 {
             o.dup_keys = true;
             o.budget = o.budget.min(40);
             emit(Case::new("reflexive-dup", doc::gen_doc(&mut r, &o)));
+        }
+        let n = g.count(30_000, 2_000_000);
+        for _ in 0..n {
+            emit(Case::with("built", vec![], &[r.next() as i64]));
         }
         if g.shard == 0 {
             // explicit duplicate-key probes (finding F8)
@@ -489,6 +765,11 @@ impl Check for C19 {
                 }
                 ctx.sample("reflexive-dup");
             }
+            "built" => {
+                ctx.nontrivial();
+                check_built(ctx, c.p(0) as u64);
+                ctx.sample("built");
+            }
             "laws" => {
                 let n0 = (c.p(0) as usize).min(c.input.len());
                 ctx.nontrivial();
@@ -512,6 +793,6 @@ impl Check for C19 {
         if b != "native-rel" {
             return vec!["dyn:both-routes-ok", "typed:instance", "laws:pair"];
         }
-        vec!["dyn:both-routes-ok", "table:non-finite", "table:wide-128", "table:non-string-key", "typed:instance", "laws:pair", "laws:equal-pair", "laws:duplicate-key-probe", "laws:reflexive-with-duplicates"]
+        vec!["dyn:both-routes-ok", "table:non-finite", "table:wide-128", "table:non-string-key", "typed:instance", "laws:pair", "laws:equal-pair", "laws:duplicate-key-probe", "laws:reflexive-with-duplicates", "built:integer", "built:float", "built:string", "built:array", "built:object", "type:Payloads", "type:Wrappers", "type:Adjacent"]
     }
 }
